@@ -31,7 +31,7 @@ pub fn generate(seed: u64, tier: Tier) -> Scenario {
     let mut rr = Rng::stream(seed, 2);
     let mut rh = Rng::stream(seed, 3);
     let vary = r.chance(1, 2);
-    let knobs = sess::gen_knobs(&mut r, vary);
+    let mut knobs = sess::gen_knobs(&mut r, vary);
     let strategy = *r.pick(&STRATEGIES);
     let ma = matches!(strategy, Strategy::LFMA | Strategy::RIMA) && r.chance(2, 3);
     let profile = r.weighted(&[70, 8, 8, 14]); // clean, dup-in-offered, offered-overlaps-pre, retry
@@ -184,8 +184,8 @@ pub fn generate(seed: u64, tier: Tier) -> Scenario {
         let id = mk_utxo(&mut r, &mut w, a, assets);
         off_ids.push(id);
     }
-    // one scenario in twenty: wallet UTxOs that carry a reference script (spending them costs the tiered fee)
-    if r.chance(1, 20) {
+    // one scenario in twelve: wallet UTxOs that carry a reference script (spending them costs the tiered fee)
+    if r.chance(1, 12) {
         w.scripts.push(ScriptSpec::Plutus { lang: 2, len: *r.pick(&[10u32, 500, 3000]), fill: 3 });
         let sid = (w.scripts.len() - 1) as u16;
         for id in off_ids.iter() {
@@ -193,6 +193,12 @@ pub fn generate(seed: u64, tier: Tier) -> Scenario {
                 w.utxos[*id].script_ref = Some(sid);
                 w.utxos[*id].coin += sess::approx_min_ada(&knobs, 3100);
             }
+        }
+        // rare knobs meet the feature they interact with: a flat fee (coefficient 0) or a free / dear script byte
+        match r.below(6) {
+            0..=2 => knobs.fee_a = 0,
+            3 => knobs.ref_script_price = Some((*r.pick(&[0u64, 1, 44, 1000]), 1)),
+            _ => {}
         }
     }
     // make outpoints unique (ledger-valid world)
